@@ -3,15 +3,17 @@
 
    Recorders and snapshot walks interleave at the granularity of the code's critical sections:
    - a recording is three steps: the caller announces it (ghost counter [started], the harness's
-     started.Add), the metric takes the value (one atomic effect: the counter's atomic add, the
-     timer's / histogram's update under the metric's lock), the caller notes its completion (ghost
+     started.Add), the metric takes the value (one atomic effect: the counter's or histogram bucket's
+     atomic add, the timer's append under its lock), the caller notes its completion (ghost
      counter [done_], the harness's done.Add);
    - a snapshot walk is: begin (the ghost bound [lo] := done_ is captured), one point-in-time read
      per metric it visits, in any order (the copy taken under the metric's lock), end (the ghost
      bound [hi] := started is captured).
    The state of a metric is the log of the values recorded into it, newest first: a counter's value
-   is the sum of the log, a timer's values are the log in order, a histogram's bucket counts are the
-   C03 classification of the log - so a statement about the log covers all kinds. *)
+   is the sum of the log, a timer's values are the log in order; a histogram is one metric per
+   bucket (a sample is one atomic add on the bucket C03 assigns it to, a snapshot reads the buckets
+   one by one), so the bound on a histogram's total is the sum of the per-bucket bounds.  A
+   statement about the log thus covers all kinds. *)
 From Coq Require Import List ZArith Arith Bool.
 Import ListNotations.
 
